@@ -57,6 +57,29 @@ Section World.
     inversion H; subst. cbn [ob_fx] in He. eapply sync_cc_no_patch; eassumption.
   Qed.
 
+  (* informer notifications are handled without any API write *)
+  Lemma handle_nevent_fx w e : ob_fx (snd (handle_nevent w e)) = [].
+  Proof.
+    unfold handle_nevent. destruct e as [n|n|n]; cbn [snd ob_fx]; try reflexivity.
+    match goal with |- context [w_ctl ?x] => destruct (w_ctl x) as [m|] end; [|reflexivity].
+    destruct (release_cidr m n) as [m' r]. destruct r; reflexivity.
+  Qed.
+
+  Lemma deliver_all_n_fx es : forall w acc, ob_fx (snd (deliver_all_n w es acc)) = [].
+  Proof.
+    induction es as [|e es IH]; intros w acc; cbn [deliver_all_n]; [reflexivity|].
+    destruct (handle_nevent w e) as [w1 ob]. destruct (ob_res ob =? 3); [reflexivity|apply IH].
+  Qed.
+
+  Lemma relist_nodes_fx w w' ob :
+    (if w_synced w then deliver_all_n (set_caches w (w_ncache w) (w_ccache w) [] (w_cfeed w)) (relist_nevents w) 0 else (w, no_obs)) = (w', ob) ->
+    ob_fx ob = [].
+  Proof.
+    intros H. destruct (w_synced w); [|inversion H; reflexivity].
+    pose proof (deliver_all_n_fx (relist_nevents w) (set_caches w (w_ncache w) (w_ccache w) [] (w_cfeed w)) 0) as Hf.
+    rewrite H in Hf. exact Hf.
+  Qed.
+
   (* C01, the part about nodes the feed has shown: in every step of every history, every PATCH carries
      CIDRs none of which overlaps a pod CIDR of any node in the node cache at that instant; and the
      PATCH goes to a node that the cache shows without pod CIDRs *)
@@ -94,6 +117,8 @@ Section World.
         repeat match type of H with
                | context [match ?x with _ => _ end] => destruct x
                end; inversion H; subst; destruct He.
+    - (* RelistNodes *)
+      rewrite (relist_nodes_fx _ _ _ H) in He. destruct He.
     - (* RunNode *)
       destruct (find (fun x => fst x =? w0) (w_nfetch w)) as [[wk [key cached]]|]; [|inversion H; subst; destruct He].
       apply Hgoal.
@@ -195,6 +220,8 @@ Section World.
         repeat match type of H with
                | context [match ?x with _ => _ end] => destruct x
                end; inversion H; subst; destruct He.
+    - (* RelistNodes *)
+      rewrite (relist_nodes_fx _ _ _ H) in He. destruct He.
     - (* RunNode *)
       destruct (find (fun x => fst x =? w0) (w_nfetch w)) as [[wk [key cached]]|] eqn:Ef; [|inversion H; subst; destruct He].
       match type of H with run_node_sync _ _ ?w1 _ _ _ = _ =>
@@ -272,6 +299,22 @@ Section World.
       destruct (release_cidr m n) as [m' r]. destruct r; cbn; intros x H; try exact H; destruct H.
   Qed.
 
+  Lemma handle_cevent_fetch w e : fetch_sub w (fst (handle_cevent w e)).
+  Proof. unfold handle_cevent. destruct e; cbn; destruct (w_ctl w); cbn; intros x H; exact H. Qed.
+
+  Lemma deliver_all_n_fetch es : forall w acc, fetch_sub w (fst (deliver_all_n w es acc)).
+  Proof.
+    induction es as [|e es IH]; intros w acc; cbn [deliver_all_n]; [intros x H; exact H|].
+    pose proof (handle_nevent_fetch w e) as He. destruct (handle_nevent w e) as [w1 ob]. cbn [fst] in He.
+    destruct (ob_res ob =? 3); [exact He|]. intros x Hx. apply He. eapply IH. exact Hx.
+  Qed.
+
+  Lemma deliver_all_c_fetch es : forall w, fetch_sub w (deliver_all_c w es).
+  Proof.
+    induction es as [|e es IH]; intros w; cbn [deliver_all_c]; [intros x H; exact H|].
+    intros x Hx. apply (handle_cevent_fetch w e). eapply IH. exact Hx.
+  Qed.
+
   Lemma step_fetch_ok w o : fetch_ok w -> fetch_ok (fst (step po lab w o)).
   Proof.
     intros Hf.
@@ -286,6 +329,10 @@ Section World.
       destruct (w_nfeed w) as [|e rest]; [exact Hf|]. apply Hsub. intros x Hx. apply handle_nevent_fetch in Hx. exact Hx.
     - destruct (w_nfeed w) as [|[n|n|n] rest]; try exact Hf. apply Hsub. intros x Hx. apply handle_nevent_fetch in Hx. exact Hx.
     - destruct (w_cfeed w) as [|e rest]; [exact Hf|]. apply Hsub. unfold handle_cevent. destruct e; cbn; destruct (w_ctl w); cbn; intros x H; exact H.
+    - (* RelistNodes *)
+      destruct (w_synced w); [|exact Hf]. apply Hsub. intros x Hx. apply deliver_all_n_fetch in Hx. exact Hx.
+    - (* RelistCCs *)
+      destruct (w_synced w); [|exact Hf]. apply Hsub. intros x Hx. cbn [fst] in Hx. apply deliver_all_c_fetch in Hx. exact Hx.
     - (* FetchNode *)
       cbn. intros wk key0 n [Hin|Hin].
       + inversion Hin; subst. eapply find_node_name. eassumption.
